@@ -52,11 +52,14 @@ func init() {
 }
 
 type psFnCfg struct {
-	fn         string
-	lean       string
-	opaque     map[string]string // variable → exact text of its defining expression
-	opaqueExpr []string          // exact texts of argument expressions taken as opaque int inputs
-	onceDo     bool              // body = `once.Do(func(){…}); return &x`
+	fn   string
+	lean string
+	// OPAQUE int inputs, created in this order right after the parameters.  `def`: the input is the
+	// variable `name`, defined by `name := <expr>`; otherwise it stands for every argument expression
+	// whose NORMAL FORM (opnorm.go: temporaries substituted, commutative operands sorted, …) equals that
+	// of `text`.
+	opaque []psOpaque
+	onceDo bool // body = `once.Do(func(){…}); return &x`
 	// scalar multiplications: methods of table types are kept ATOMIC (`tinit` / `tselect`) instead of
 	// being inlined, and the recoded scalar is an opaque array of ints
 	atomic    bool
@@ -64,8 +67,14 @@ type psFnCfg struct {
 }
 
 type psArrCfg struct {
-	text string // exact text of the defining expression
-	n    int    // length of the Go array
+	text     string // defining expression (compared in normal form)
+	n        int    // length of the Go array
+	unsigned bool   // element type is unsigned (`>>`, `&` on an element are the arithmetic ones)
+}
+
+type psOpaque struct {
+	name, text string
+	def        bool
 }
 
 type psConfig struct {
@@ -97,8 +106,7 @@ var psConfigs = []psConfig{
 		fns: []psFnCfg{
 			{fn: "lookupTable.Init", lean: "lookupInit"},
 			{fn: "lookupTable.SelectInto", lean: "lookupSelect",
-				opaque:     map[string]string{"xmask": "x >> 7", "xabs": "uint8((x + xmask) ^ xmask)"},
-				opaqueExpr: []string{"int(xmask & 1)"}},
+				opaque: []psOpaque{{"xabs", "uint8((x + x>>7) ^ (x >> 7))", true}, {"xsign", "int((x >> 7) & 1)", false}}},
 			{fn: "nafLookupTable5.Init", lean: "nafInit5"},
 			{fn: "nafLookupTable5.SelectInto", lean: "nafSelect5"},
 			{fn: "nafLookupTable8.Init", lean: "nafInit8"},
@@ -106,9 +114,9 @@ var psConfigs = []psConfig{
 			{fn: "basepointTable", lean: "basepointTable", onceDo: true},
 			{fn: "basepointNAFTable", lean: "basepointNAFTable", onceDo: true},
 			{fn: "Point.ScalarMult", lean: "scalarMult", atomic: true,
-				opaqueArr: map[string]psArrCfg{"digits": {"x.signedRadix16()", 112}}},
+				opaqueArr: map[string]psArrCfg{"digits": {"x.signedRadix16()", 112, false}}},
 			{fn: "Point.ScalarBaseMult", lean: "scalarBaseMult", atomic: true,
-				opaqueArr: map[string]psArrCfg{"digits": {"x.signedRadix16()", 112}}},
+				opaqueArr: map[string]psArrCfg{"digits": {"x.signedRadix16()", 112, false}}},
 		},
 		tableFuncs: map[string]string{"basepointTable": "varBasepointTable", "basepointNAFTable": "varBasepointNAFTable"},
 		guards:     []string{"checkInitialized"},
@@ -122,7 +130,7 @@ var psConfigs = []psConfig{
 			{fn: "lookupTable.SelectInto", lean: "lookupSelect"},
 			{fn: "initBaseTable", lean: "initBaseTable", onceDo: true},
 			{fn: "PointJacobian.ScalarMult", lean: "scalarMult", atomic: true,
-				opaqueArr: map[string]psArrCfg{"s": {"normalizeScalar(k)", 32}}},
+				opaqueArr: map[string]psArrCfg{"s": {"normalizeScalar(k)", 32, true}}},
 		},
 	},
 }
@@ -140,13 +148,17 @@ type psVar struct {
 	input bool
 	local bool // declared by `var`: uninitialised until written
 	wrote bool
+	// int variable known to be non-negative (unsigned type, loop variable over a non-negative range,
+	// assigned a non-negative expression): `>>` and `&` are only translated on such values
+	nonneg bool
 }
 
 type psIExpr struct {
-	op   string // lit var add sub mul div shr band ctEq aget (x = array, a = index)
-	v    int64
-	x    *psVar
-	a, b *psIExpr
+	nonneg bool
+	op     string // lit var add sub mul div shr band ctEq aget (x = array, a = index)
+	v      int64
+	x      *psVar
+	a, b   *psIExpr
 }
 
 type psPlace struct {
@@ -176,17 +188,18 @@ type psTableType struct {
 }
 
 type psBind struct {
-	kind  string // point table tables int iexpr
-	place psPlace
-	arr   *psVar   // table / tables
-	off   *psIExpr // offset of the table inside arr
-	n     int      // entries per table
-	count int      // tables: number of tables
-	ttype string   // table type name
-	intv  *psVar
-	ie    *psIExpr
-	name  string
-	ptr   bool
+	kind   string // point table tables int iexpr
+	place  psPlace
+	arr    *psVar   // table / tables
+	off    *psIExpr // offset of the table inside arr
+	n      int      // entries per table
+	count  int      // tables: number of tables
+	ttype  string   // table type name
+	intv   *psVar
+	ie     *psIExpr
+	name   string
+	ptr    bool
+	defer_ ast.Expr // kind "deferred": pure single-assignment temporary, only substituted into opaque expressions
 }
 
 type psPkg struct {
@@ -215,6 +228,11 @@ type psCtx struct {
 	depth   int
 	tag     string
 	nTmp    int
+	scan    []ast.Stmt
+	opq     []*psVar // opaque inputs, parallel to fc.opaque
+	opqNF   []string
+	opqSeen []bool
+	nLoop   int
 }
 
 type psScope struct {
@@ -311,7 +329,7 @@ func (c *psCtx) newVar(name, kind string) *psVar {
 // ---------------------------------------------------------------------------------------------
 // int expressions
 
-func psLit(v int64) *psIExpr { return &psIExpr{op: "lit", v: v} }
+func psLit(v int64) *psIExpr { return &psIExpr{op: "lit", v: v, nonneg: v >= 0} }
 
 func psAdd(a, b *psIExpr) *psIExpr {
 	if a == nil {
@@ -323,14 +341,28 @@ func psAdd(a, b *psIExpr) *psIExpr {
 	if a.op == "lit" && b.op == "lit" {
 		return psLit(a.v + b.v)
 	}
-	return &psIExpr{op: "add", a: a, b: b}
+	return &psIExpr{op: "add", a: a, b: b, nonneg: a.nonneg && b.nonneg}
+}
+
+func (c *psCtx) subst(sc *psScope) func(string) ast.Expr {
+	return func(n string) ast.Expr {
+		if b, ok := sc.m[n]; ok && b.kind == "deferred" {
+			return b.defer_
+		}
+		return nil
+	}
 }
 
 func (c *psCtx) iexpr(sc *psScope, e ast.Expr) (*psIExpr, error) {
 	txt := c.p.text(e)
-	for _, o := range c.fc.opaqueExpr {
-		if o == txt && c.depth == 0 {
-			return &psIExpr{op: "var", x: c.opaqueVar(txt, txt)}, nil
+	if c.depth == 0 && len(c.opq) > 0 {
+		if nf, err := osNorm(e, c.subst(sc), 0); err == nil {
+			for i, o := range c.fc.opaque {
+				if !o.def && c.opqNF[i] == nf {
+					c.opqSeen[i] = true
+					return &psIExpr{op: "var", x: c.opq[i], nonneg: c.opq[i].nonneg}, nil
+				}
+			}
 		}
 	}
 	switch x := e.(type) {
@@ -346,7 +378,7 @@ func (c *psCtx) iexpr(sc *psScope, e ast.Expr) (*psIExpr, error) {
 	case *ast.Ident:
 		b, ok := sc.m[x.Name]
 		if ok && b.kind == "int" {
-			return &psIExpr{op: "var", x: b.intv}, nil
+			return &psIExpr{op: "var", x: b.intv, nonneg: b.intv.nonneg}, nil
 		}
 		if ok && b.kind == "iexpr" {
 			return b.ie, nil
@@ -370,7 +402,10 @@ func (c *psCtx) iexpr(sc *psScope, e ast.Expr) (*psIExpr, error) {
 					return nil, c.p.errAt(e, "& with a mask that is not 2^j - 1")
 				}
 			}
-			return &psIExpr{op: op, a: a, v: k}, nil
+			if !a.nonneg {
+				return nil, c.p.errAt(e, "%s on a value that is not known to be non-negative", x.Op)
+			}
+			return &psIExpr{op: op, a: a, v: k, nonneg: true}, nil
 		}
 		op := map[token.Token]string{token.ADD: "add", token.SUB: "sub", token.MUL: "mul", token.QUO: "div"}[x.Op]
 		if op == "" {
@@ -380,7 +415,7 @@ func (c *psCtx) iexpr(sc *psScope, e ast.Expr) (*psIExpr, error) {
 		if err != nil {
 			return nil, err
 		}
-		return &psIExpr{op: op, a: a, b: b}, nil
+		return &psIExpr{op: op, a: a, b: b, nonneg: op != "sub" && a.nonneg && b.nonneg}, nil
 	case *ast.IndexExpr:
 		if id, ok := x.X.(*ast.Ident); ok {
 			if b, ok := sc.m[id.Name]; ok && b.kind == "iarr" {
@@ -396,7 +431,9 @@ func (c *psCtx) iexpr(sc *psScope, e ast.Expr) (*psIExpr, error) {
 					return nil, c.p.errAt(e, "index %s ranges over [%d, %d], outside [0, %d)", c.p.text(x.Index), lo, hi, b.n)
 				}
 				c.facts = append(c.facts, [2]string{"index-checked", fmt.Sprintf("%s in [%d, %d] of %d", txt, lo, hi, b.n)})
-				return &psIExpr{op: "aget", x: b.intv, a: ie}, nil
+				c.facts = c.facts[:len(c.facts)-1]
+				c.facts = append(c.facts, [2]string{"index-checked", fmt.Sprintf("%s in [%d, %d] of %d", b.intv.name, lo, hi, b.n)})
+				return &psIExpr{op: "aget", x: b.intv, a: ie, nonneg: b.intv.nonneg}, nil
 			}
 		}
 	case *ast.CallExpr:
@@ -421,23 +458,11 @@ func (c *psCtx) iexpr(sc *psScope, e ast.Expr) (*psIExpr, error) {
 				if err != nil {
 					return nil, err
 				}
-				return &psIExpr{op: "ctEq", a: a, b: b}, nil
+				return &psIExpr{op: "ctEq", a: a, b: b, nonneg: true}, nil
 			}
 		}
 	}
 	return nil, c.p.errAt(e, "unsupported int expression %s", txt)
-}
-
-func (c *psCtx) opaqueVar(name, text string) *psVar {
-	for _, v := range c.vars {
-		if v.name == name && v.kind == "int" {
-			return v
-		}
-	}
-	v := c.newVar(name, "int")
-	v.input = true
-	c.facts = append(c.facts, [2]string{"opaque " + name, text})
-	return v
 }
 
 // evaluate an index expression over the iteration space of the enclosing loops
@@ -641,9 +666,13 @@ func (c *psCtx) place(sc *psScope, e ast.Expr, out *[]*psStmt) (psPlace, error) 
 			if lo < 0 || hi >= int64(a.n) {
 				return psPlace{}, c.p.errAt(e, "index %s ranges over [%d, %d], outside [0, %d)", c.p.text(x.Index), lo, hi, a.n)
 			}
-			c.facts = append(c.facts, [2]string{"index-checked", fmt.Sprintf("%s in [%d, %d] of %d", c.p.text(e), lo, hi, a.n)})
+			c.facts = append(c.facts, [2]string{"index-checked", fmt.Sprintf("%s in [%d, %d] of %d", a.arr.name, lo, hi, a.n)})
 		} else {
-			c.facts = append(c.facts, [2]string{"index-unchecked", c.p.text(e)})
+			nf, err := osNorm(x.Index, c.subst(sc), 0)
+			if err != nil {
+				return psPlace{}, c.p.errAt(e, "index: %v", err)
+			}
+			c.facts = append(c.facts, [2]string{"index-unchecked", a.arr.name + "[" + nf + "]"})
 		}
 		return psPlace{v: a.arr, idx: psAdd(a.off, ie)}, nil
 	case *ast.CallExpr:
@@ -892,6 +921,12 @@ func (c *psCtx) stmts(sc *psScope, list []ast.Stmt, top bool) ([]*psStmt, error)
 				return nil, err
 			}
 			out = append(out, st)
+		case *ast.RangeStmt:
+			st, err := c.rangeStmt(sc, x)
+			if err != nil {
+				return nil, err
+			}
+			out = append(out, st)
 		case *ast.IfStmt:
 			// `if cond { panic(…) }` guard
 			if x.Init == nil && x.Else == nil && len(x.Body.List) == 1 {
@@ -949,23 +984,41 @@ func (c *psCtx) assign(sc *psScope, x *ast.AssignStmt, out *[]*psStmt) error {
 	if !ok || x.Tok != token.DEFINE {
 		return c.p.errAt(x, "unsupported assignment %s", c.p.text(x))
 	}
-	// opaque int definition
-	if want, ok := c.fc.opaque[id.Name]; ok && c.depth == 0 {
-		got := c.p.text(rhs)
-		if got != want {
-			return c.p.errAt(x, "opaque definition of %s changed: %q (configured %q)", id.Name, got, want)
+	// opaque int definition (compared in normal form)
+	if c.depth == 0 {
+		for i, o := range c.fc.opaque {
+			if o.def && o.name == id.Name {
+				got, err := osNorm(rhs, c.subst(sc), 0)
+				if err != nil {
+					return c.p.errAt(x, "opaque definition of %s: %v", id.Name, err)
+				}
+				if got != c.opqNF[i] {
+					return c.p.errAt(x, "opaque definition of %s changed: normal form %q (configured %q)", id.Name, got, c.opqNF[i])
+				}
+				if d, a := osAssignCount(c.scan, id.Name); d != 1 || a != 0 {
+					return c.p.errAt(x, "opaque variable %s is assigned more than once", id.Name)
+				}
+				c.opqSeen[i] = true
+				sc.m[id.Name] = &psBind{kind: "int", intv: c.opq[i]}
+				return nil
+			}
 		}
-		sc.m[id.Name] = &psBind{kind: "int", intv: c.opaqueVar(id.Name, got)}
-		return nil
 	}
 	// digits := x.signedRadix16()   (opaque array of ints)
 	if ac, ok := c.fc.opaqueArr[id.Name]; ok && c.depth == 0 {
-		got := c.p.text(rhs)
-		if got != ac.text {
-			return c.p.errAt(x, "opaque definition of %s changed: %q (configured %q)", id.Name, got, ac.text)
+		want, err := osNormText(ac.text)
+		if err != nil {
+			return err
+		}
+		got, err := osNorm(rhs, c.subst(sc), 0)
+		if err != nil {
+			return c.p.errAt(x, "opaque definition of %s: %v", id.Name, err)
+		}
+		if got != want {
+			return c.p.errAt(x, "opaque definition of %s changed: normal form %q (configured %q)", id.Name, got, want)
 		}
 		v := c.newVar(id.Name, "iarr")
-		v.n, v.input = ac.n, true
+		v.n, v.input, v.nonneg = ac.n, true, ac.unsigned
 		c.facts = append(c.facts, [2]string{"opaque " + id.Name, got})
 		sc.m[id.Name] = &psBind{kind: "iarr", intv: v, n: ac.n}
 		return nil
@@ -978,7 +1031,7 @@ func (c *psCtx) assign(sc *psScope, x *ast.AssignStmt, out *[]*psStmt) error {
 				if b == nil {
 					return c.p.errAt(x, "package-level table %s not found", pv)
 				}
-				c.facts = append(c.facts, [2]string{"table " + id.Name, c.p.text(rhs) + " = &" + pv})
+				c.facts = append(c.facts, [2]string{"table-func", c.p.text(rhs) + " = &" + pv})
 				sc.m[id.Name] = b
 				return nil
 			}
@@ -1016,11 +1069,20 @@ func (c *psCtx) assign(sc *psScope, x *ast.AssignStmt, out *[]*psStmt) error {
 		}
 	}
 	// int definition
+	nFacts := len(c.facts)
 	ie, err := c.iexpr(sc, rhs)
 	if err != nil {
+		// a pure single-assignment temporary outside the int subset (`xmask := x >> 7` on an int8) is
+		// kept for substitution into opaque expressions only
+		if c.depth == 0 && osCanDefer(c.scan, id.Name, rhs) {
+			c.facts = c.facts[:nFacts]
+			sc.m[id.Name] = &psBind{kind: "deferred", defer_: rhs, name: id.Name}
+			return nil
+		}
 		return err
 	}
 	v := c.newVar(sc.prefix+id.Name, "int")
+	v.nonneg = ie.nonneg
 	*out = append(*out, &psStmt{kind: "assign", v: v, e: ie, text: c.tagged(c.p.text(x))})
 	sc.m[id.Name] = &psBind{kind: "int", intv: v}
 	return nil
@@ -1099,6 +1161,7 @@ func (c *psCtx) forStmt(sc *psScope, x *ast.ForStmt) (*psStmt, error) {
 	}
 	inner := sc.child()
 	v := c.newVar(sc.prefix+iv.Name, "int")
+	v.nonneg = (down && hi >= 0) || (!down && lo >= 0)
 	inner.m[iv.Name] = &psBind{kind: "int", intv: v}
 	// the loop variable must not be assigned in the body
 	bad := false
@@ -1134,11 +1197,131 @@ func (c *psCtx) forStmt(sc *psScope, x *ast.ForStmt) (*psStmt, error) {
 		return nil, err
 	}
 	hdr := "for " + c.p.text(x.Init) + "; " + c.p.text(x.Cond) + "; " + c.p.text(x.Post)
-	c.facts = append(c.facts, [2]string{"loop " + v.name, hdr})
+	c.nLoop++
+	if down {
+		c.facts = append(c.facts, [2]string{fmt.Sprintf("loop %d", c.nLoop), fmt.Sprintf("from %d down to %d", lo, hi)})
+	} else {
+		c.facts = append(c.facts, [2]string{fmt.Sprintf("loop %d", c.nLoop), fmt.Sprintf("from %d below %d step %d", lo, hi, step)})
+	}
 	if down {
 		return &psStmt{kind: "down", v: v, lo: hi, hi: lo, body: body, text: c.tagged(hdr)}, nil
 	}
 	return &psStmt{kind: "for", v: v, lo: lo, hi: hi, step: step, body: body, text: c.tagged(hdr)}, nil
+}
+
+// `for i, x := range a[lo:hi]`, `for _, x := range a[lo:]`, `for i := range a` over an opaque int array
+// (element binding x = a[j]) or over an array of points (index only): the equivalent
+// `forLt j lo hi 1` with j the ABSOLUTE index, i = j - lo, x = a[j]
+func (c *psCtx) rangeStmt(sc *psScope, x *ast.RangeStmt) (*psStmt, error) {
+	if x.Tok != token.DEFINE {
+		return nil, c.p.errAt(x, "unsupported range loop (assignment form)")
+	}
+	arrExpr := x.X
+	lo, hi := int64(0), int64(-1)
+	if sl, ok := arrExpr.(*ast.SliceExpr); ok {
+		if sl.Slice3 {
+			return nil, c.p.errAt(x, "unsupported range loop (3-index slice)")
+		}
+		arrExpr = sl.X
+		if sl.Low != nil {
+			v, ok := osConstInt(sl.Low)
+			if !ok {
+				return nil, c.p.errAt(x, "range over a slice with a non-constant bound")
+			}
+			lo = v
+		}
+		if sl.High != nil {
+			v, ok := osConstInt(sl.High)
+			if !ok {
+				return nil, c.p.errAt(x, "range over a slice with a non-constant bound")
+			}
+			hi = v
+		}
+	}
+	var n int64
+	var iarr *psBind
+	if id, ok := arrExpr.(*ast.Ident); ok {
+		if b, ok := sc.m[id.Name]; ok && b.kind == "iarr" {
+			iarr, n = b, int64(b.n)
+		}
+	}
+	if iarr == nil {
+		a, err := c.arrayOf(sc, arrExpr)
+		if err != nil {
+			return nil, c.p.errAt(x, "range over %s: not an opaque int array or an array of points of constant length", c.p.text(arrExpr))
+		}
+		n = int64(a.n)
+		if x.Value != nil {
+			if id, ok := x.Value.(*ast.Ident); !ok || id.Name != "_" {
+				return nil, c.p.errAt(x, "range over an array of points with an element variable (a copy) is not supported")
+			}
+		}
+	}
+	if hi < 0 {
+		hi = n
+	}
+	if lo < 0 || hi > n || lo > hi {
+		return nil, c.p.errAt(x, "slice bounds [%d:%d] outside [0, %d]", lo, hi, n)
+	}
+	name := func(e ast.Expr) string {
+		if id, ok := e.(*ast.Ident); ok && id.Name != "_" {
+			return id.Name
+		}
+		return ""
+	}
+	kn, vn := "", ""
+	if x.Key != nil {
+		kn = name(x.Key)
+	}
+	if x.Value != nil {
+		vn = name(x.Value)
+	}
+	for _, nm := range []string{kn, vn} {
+		if nm != "" {
+			if _, a := osAssignCount(x.Body.List, nm); a != 0 {
+				return nil, c.p.errAt(x, "range variable %s is assigned in the body", nm)
+			}
+		}
+	}
+	bad := false
+	ast.Inspect(x.Body, func(nd ast.Node) bool {
+		if _, ok := nd.(*ast.BranchStmt); ok {
+			bad = true
+		}
+		return true
+	})
+	if bad {
+		return nil, c.p.errAt(x, "the loop body has break/continue")
+	}
+	inner := sc.child()
+	j := c.newVar(sc.prefix+"range#"+strconv.Itoa(c.nLoop+1), "int")
+	j.nonneg = true
+	jv := &psIExpr{op: "var", x: j, nonneg: true}
+	if kn != "" {
+		inner.m[kn] = &psBind{kind: "iexpr", ie: &psIExpr{op: "sub", a: jv, b: psLit(lo), nonneg: true}}
+		if lo == 0 {
+			inner.m[kn] = &psBind{kind: "iexpr", ie: jv}
+		}
+	}
+	if vn != "" {
+		inner.m[vn] = &psBind{kind: "iexpr", ie: &psIExpr{op: "aget", x: iarr.intv, a: jv, nonneg: iarr.intv.nonneg}}
+		if hi > lo {
+			c.facts = append(c.facts, [2]string{"index-checked", fmt.Sprintf("%s in [%d, %d] of %d", iarr.intv.name, lo, hi-1, n)})
+		}
+	}
+	c.loops = append(c.loops, psLoop{j, lo, hi, 1})
+	body, err := c.stmts(inner, x.Body.List, false)
+	c.loops = c.loops[:len(c.loops)-1]
+	if err != nil {
+		return nil, err
+	}
+	c.nLoop++
+	c.facts = append(c.facts, [2]string{fmt.Sprintf("loop %d", c.nLoop), fmt.Sprintf("from %d below %d step 1", lo, hi)})
+	hdr := "for " + c.p.text(x.Key)
+	if x.Value != nil {
+		hdr += ", " + c.p.text(x.Value)
+	}
+	return &psStmt{kind: "for", v: j, lo: lo, hi: hi, step: 1, body: body, text: c.tagged(hdr + " := range " + c.p.text(x.X))}, nil
 }
 
 // ---------------------------------------------------------------------------------------------
@@ -1176,7 +1359,7 @@ func psTranslate(p *psPkg, fc *psFnCfg) (*psResult, error) {
 			sc.m[name] = &psBind{kind: "table", arr: v, n: tt.n, ttype: tn[1:], name: name, ptr: true}
 		case tn == "int8" || tn == "uint8" || tn == "int":
 			v := c.newVar(name, "int")
-			v.input = true
+			v.input, v.nonneg = true, tn == "uint8"
 			sc.m[name] = &psBind{kind: "int", intv: v}
 		default:
 			// usable only inside opaque texts
@@ -1227,9 +1410,25 @@ func psTranslate(p *psPkg, fc *psFnCfg) (*psResult, error) {
 		}
 		list = lit.Body.List
 	}
+	for _, o := range fc.opaque {
+		nf, err := osNormText(o.text)
+		if err != nil {
+			return nil, err
+		}
+		v := c.newVar(o.name, "int")
+		v.input = true
+		c.opq, c.opqNF, c.opqSeen = append(c.opq, v), append(c.opqNF, nf), append(c.opqSeen, false)
+		c.facts = append(c.facts, [2]string{"opaque " + o.name, nf})
+	}
+	c.scan = list
 	body, err := c.stmts(sc, list, true)
 	if err != nil {
 		return nil, err
+	}
+	for i, o := range fc.opaque {
+		if !c.opqSeen[i] {
+			return nil, p.errAt(fd, "%s: the configured opaque input %s (%s) does not occur", fc.fn, o.name, c.opqNF[i])
+		}
 	}
 	r := &psResult{fc: fc, vars: c.vars, body: body, guards: c.guards, facts: c.facts}
 	for _, v := range c.vars {
